@@ -79,6 +79,9 @@ _c14h = [
       functions=["wire::frame::Frame::<Tail>::decode (git branch)", "wire::varint::payload::decode"],
       bounds="version + git stream id + 7 symbolic bytes, any prefix length 5..=12", stubs=[_ORACLE, _TAIL]),
 ]
+_c14h.append(H("c14_deserializer_state_is_buffer_only", "node", _M14, "wire_c14", tiers=Q, covers=1, stubs=[],
+    functions=["deserializer::Deserializer (type layout)", "bounded::BoundedVec (type layout)"],
+    bounds="structural premise of the chunking induction: size_of::<Deserializer<_, _>>() == size_of::<Vec<u8>>() - no state besides the unparsed bytes"))
 for _m, _l, _t in [("tail", 0, Q), ("msg", 0, Q), ("msg", 1, Q), ("msg", 2, Q), ("msg", 3, T), ("msg", 4, T)]:
     _c14h.append(H(
         f"c14_complete_invalid_{_m}_l{_l}", "node", _M14, "wire_c14", tiers=_t, covers=1,
